@@ -4,7 +4,7 @@
 //! belief (the recording orders of one multiset; the interleavings of one set
 //! of statements). The first history of a group is the reference.
 
-use crate::case::Case;
+use crate::case::{Case, Spelling};
 use crate::model::{self, POLICIES};
 use crate::oracle::{self, Digest, Finding, Summary};
 use crate::world::{Coord, Obs, Recorded, World};
@@ -32,6 +32,10 @@ pub struct Plan {
     /// combinations occur). Historical reads scan the whole version log of the Space, so this wants
     /// small batches and frequent rotation.
     pub coordinates: bool,
+    /// evaluation-time spelling dimension: every query is issued again with its `FOR TIME` instant written
+    /// with second precision, at `+08:00`, at `-05:00` and with `+00:00`; the answers must match the model
+    /// and the canonically spelled read
+    pub spellings: bool,
 }
 
 #[derive(Default)]
@@ -47,6 +51,10 @@ pub struct Outcome {
     /// projections at a historical coordinate compared with the model / with the read at "now"
     pub coordinate_projections: u64,
     pub coordinate_comparisons: u64,
+    /// projections under a non-canonical spelling of the evaluation instant, compared with the model /
+    /// with the canonically spelled read
+    pub spelling_projections: u64,
+    pub spelling_comparisons: u64,
     /// evidence note: ineligible assertions about the other value of a slot, not listed in the answer
     pub other_value_unlisted: u64,
     pub statuses: BTreeMap<String, u64>,
@@ -101,7 +109,7 @@ fn push_findings(
             &law,
             case.functional,
             format!(
-                "{} | history {} | projecting {} at {} under '{}', read coordinate: {coord}",
+                "{} | history {} | projecting {} at {} under '{}', read variant: {coord}",
                 f.detail,
                 history,
                 if about_rival { "v1" } else { "v0" },
@@ -163,13 +171,15 @@ fn check_batch(
                     out.violations.push(violation(
                         &law_at("no-answer"),
                         functional,
-                        format!("stored proposition {prop} of history {} got no projection row, read coordinate: {coord}", case.short()),
+                        format!("stored proposition {prop} of history {} got no projection row, read variant: {coord}", case.short()),
                         json!({"relation": "single", "cases": [case], "query": {"at": at, "policy": pol}, "about_rival": rival, "batch": cases, "coordinate": coord}),
                     ));
                     continue;
                 };
                 if coord == "now" {
                     out.evaluations += 1;
+                } else if coord.starts_with("spelled-") {
+                    out.spelling_projections += 1;
                 } else {
                     out.coordinate_projections += 1;
                 }
@@ -211,7 +221,7 @@ fn check_batch(
             out.violations.push(violation(
                 &law_at("cross-proposition-influence"),
                 functional,
-                format!("batch query returned {} projections for a different number of stored propositions, read coordinate: {coord}", seen.len()),
+                format!("batch query returned {} projections for a different number of stored propositions, read variant: {coord}", seen.len()),
                 json!({"relation": "single", "cases": [cases[0]], "query": {"at": at, "policy": pol}, "about_rival": false, "batch": cases, "coordinate": coord}),
             ));
         }
@@ -259,7 +269,7 @@ fn entry_points(
         violations.push(violation(
             &law,
             case.functional,
-            format!("{detail} | history {}, read coordinate: {coord}", case.short()),
+            format!("{detail} | history {}, read variant: {coord}", case.short()),
             json!({"relation": "single", "cases": [case], "query": {"at": at, "policy": pol}, "about_rival": false, "batch": batch, "entry_points": true, "coordinate": coord}),
         ));
     };
@@ -442,6 +452,45 @@ pub fn run_groups(
                 }
             }
         }
+        // evaluation-time spelling dimension: the same instants, written differently
+        if plan.spellings {
+            for spelling in Spelling::OTHERS {
+                let label = format!("spelled-{}", spelling.label());
+                world.spelling = spelling;
+                let (spelled, _) = check_batch(
+                    world,
+                    &batch,
+                    &cases,
+                    &recs,
+                    plan,
+                    with_entry_points,
+                    &label,
+                    &mut out,
+                );
+                world.spelling = Spelling::Canonical;
+                for (qi, &(at, pol)) in plan.queries.iter().enumerate() {
+                    for c in 0..cases.len() {
+                        let (Some(canonical), Some(other)) = (&reference[qi][c], &spelled[qi][c])
+                        else {
+                            continue;
+                        };
+                        out.spelling_comparisons += 1;
+                        let findings = oracle::compare_spellings(canonical, other);
+                        push_findings(
+                            &mut out.violations,
+                            findings,
+                            &[&cases[c]],
+                            "single",
+                            at,
+                            pol,
+                            false,
+                            &cases,
+                            &label,
+                        );
+                    }
+                }
+            }
+        }
         for (start, len) in spans {
             for (qi, &(at, pol)) in plan.queries.iter().enumerate() {
                 let Some(first) = &reference[qi][start] else {
@@ -534,7 +583,11 @@ pub fn replay(doc: &Value) -> Vec<Violation> {
         // a violation first seen at a historical coordinate is replayed with the coordinate dimension on
         coordinates: r["coordinate"]
             .as_str()
-            .map(|c| c != "now")
+            .map(|c| c != "now" && !c.starts_with("spelled-"))
+            .unwrap_or(false),
+        spellings: r["coordinate"]
+            .as_str()
+            .map(|c| c.starts_with("spelled-"))
             .unwrap_or(false),
     };
     let mut found = Vec::new();
